@@ -43,6 +43,15 @@ func main() {
 		os.Exit(2)
 	}
 	r := ev.NewRun(id, tier)
+	if tier == "thorough" {
+		histSweepText, histSweepList = 8300, 1100
+	} else if id == "C04" || id == "C05" {
+		histSweepText, histSweepList = 1200, 150 // frame legs run every body value in several buffer states
+	}
+	switch id {
+	case "C04", "C05", "C06", "C07", "C16":
+		r.Set("size_sweep_in_value_legs", map[string]any{"every_prefixed_text_length_0_to": histSweepText, "every_list_length_0_to": histSweepList})
+	}
 	fn(r, tier == "thorough")
 	os.Exit(r.Finish())
 }
